@@ -1006,3 +1006,38 @@ func (b *TB) rebuild(t *Term, a []*Term) *Term {
 	}
 	panic("rebuild: unknown op")
 }
+
+// Rename returns t with every variable whose name satisfies pred replaced by a
+// primed copy (name + suffix).
+func (b *TB) Rename(t *Term, pred func(string) bool, suffix string, memo map[int]*Term) *Term {
+	if r, ok := memo[t.id]; ok {
+		return r
+	}
+	var r *Term
+	switch t.op {
+	case OpConst:
+		r = t
+	case OpVar:
+		if pred(t.name) {
+			r = b.Var(t.name+suffix, t.w)
+		} else {
+			r = t
+		}
+	default:
+		args := make([]*Term, len(t.args))
+		changed := false
+		for i, a := range t.args {
+			args[i] = b.Rename(a, pred, suffix, memo)
+			if args[i] != a {
+				changed = true
+			}
+		}
+		if changed {
+			r = b.rebuild(t, args)
+		} else {
+			r = t
+		}
+	}
+	memo[t.id] = r
+	return r
+}
